@@ -393,9 +393,10 @@ def liar_stream(rng, pid):
                              [["values"]], [["next", "idsvalues"]], [["values"], ["idsvalues"]], [["vnth 1", "values"]]]
                     for pr in progs:
                         for owner in ("intoseq all", "drop"):
+                            kk = k
                             if (i % 7) == 3:
-                                k = rng.choice([MAXW, MAXW - 1, 1 << 63])     # an "exact" size that saturates the word
-                            c = make_source(rng, "%s-liar%d" % (pid, i), kind, L, hint="fixed%d" % k)
+                                kk = rng.choice([MAXW, MAXW - 1, 1 << 63])     # an "exact" size that saturates the word
+                            c = make_source(rng, "%s-liar%d" % (pid, i), kind, L, hint="fixed%d" % kk)
                             c.threads = [list(t) for t in pr]
                             c.owner = owner
                             if len(pr) > 1:
